@@ -192,7 +192,7 @@ def simulate_process(ctx, V, script):
         tok = ';' if item in (';', ';!') else item
         tt, text = lex_item(ctx, V, tok)
         if stream:
-            stream.append((WSP, ' '))
+            stream.extend(SPELLING.get('between') or [(WSP, ' ')])
         stream.append((tt, text))
         if tok == ';':
             marks.append((len(stream) - 1, 'final' if final else 'inner'))
